@@ -20,8 +20,8 @@ import (
 // dispatch pool D (DESIGN §4). Patterns with interceptor rules are only
 // meaningful in I1/I2; in I0 the same text is a regexp, which is fine too.
 var poolStatic = []string{"/", "/a", "/ab", "/abc", "/b", "/a/b", "/a/b/c", "a"}
-var poolNamed = []string{"/{x}", "/{x}/b", "/{x}/bc", "/a/{x}", "/a/{x}/{y}", "/a/{x}/{y}/c", "/a/{x}-{y}", "/a/{x}-{y}.h", "/a{x}", "/{-x}/b", "/a/{-x}/{y}", "/a/{x}/", "/a/{z}/bd"}
-var poolRegexp = []string{`/{x:\d+}`, `/a/{x:\d+}`, `/a/{x:\d+}.h`, `/a/{x:\d*}`, `/a/{x}/{y:\d+}`, `/a/{x:[ab]+}/b`, `/a/{-x:\d+}/c`, `/a/{x:\d+}/bc`}
+var poolNamed = []string{"/{x}", "/{x}/b", "/{x}/bc", "/a/{x}", "/a/{x}/{y}", "/a/{x}/{y}/c", "/a/{x}-{y}", "/a/{x}-{y}.h", "/a{x}", "/{-x}/b", "/a/{-x}/{y}", "/a/{x}/", "/a/{z}/bd", "/{xy}/c", "/a/{xy}/d"}
+var poolRegexp = []string{`/{x:\d+}`, `/a/{x:\d+}`, `/a/{x:\d+}.h`, `/a/{x:\d*}`, `/a/{x}/{y:\d+}`, `/a/{x:[ab]+}/b`, `/a/{-x:\d+}/c`, `/a/{x:\d+}/bc`, `/a/{x:\d}/q`}
 var poolGreedy = []string{`/{x:.+}/b`}
 var poolIcpt = []string{"/a/{x:digit}", "/a/{x:digit}/b", "/{x:word}/b", "/a/{x:any}", "/a/{-x:digit}/c", "/a/{x:any}bb"}
 var indexBlock = []string{"/c", "/d", "/e", "/f", "/g"}
@@ -260,6 +260,9 @@ type tableItem struct {
 	Size   int       `json:"size"`  // max table size
 	Pool   []string  `json:"pool"`
 	MaxLen int       `json:"maxlen"`
+	// replay: only this ordered table (indices into Pool) and this index-block setting
+	Only      []int `json:"only,omitempty"`
+	OnlyBlock *bool `json:"onlyblock,omitempty"`
 }
 
 type tableOut struct {
@@ -268,14 +271,6 @@ type tableOut struct {
 	Viols    []explore.Violation `json:"viols"`
 	Outcomes []string            `json:"outcomes"`
 	Sample   any                 `json:"sample"`
-}
-
-type tableReplay struct {
-	Kind     string    `json:"kind"`
-	Router   RouterCfg `json:"router"`
-	Patterns []string  `json:"patterns"`
-	Block    bool      `json:"block"`
-	Req      hv.Req    `json:"req"`
 }
 
 func buildTable(cfg RouterCfg, pats []string, block bool) (*Router, *ref.Table, string) {
@@ -320,14 +315,19 @@ func tableJob(raw json.RawMessage) (any, error) {
 			mt.Handle(p, "", nil, "GET")
 		}
 		for _, block := range []bool{false, true} {
+			if it.OnlyBlock != nil && *it.OnlyBlock != block {
+				continue
+			}
+			narrowed := it
+			narrowed.Only, narrowed.OnlyBlock = append([]int{}, idx...), &block
+			replay := explore.ItemReplay("c01/tables", narrowed)
 			r, t, perr := buildTable(it.Router, pats, block)
 			hist := append([]string{}, pats...)
 			if block {
 				hist = append([]string{"+index-block(/c../g)"}, hist...)
 			}
 			if perr != "" {
-				out.Viols = append(out.Viols, explore.Violation{Property: it.Mode, Clause: it.Mode + ".no-panic", Class: "handle-panic", Config: it.Router.String(), History: hist, Observed: perr, Expected: "registration of a well-formed, unambiguous pattern succeeds",
-					Replay: mustJSON(tableReplay{Kind: "build", Router: it.Router, Patterns: pats, Block: block})})
+				out.Viols = append(out.Viols, explore.Violation{Property: it.Mode, Clause: it.Mode + ".no-panic", Class: "handle-panic", Config: it.Router.String(), History: hist, Observed: perr, Expected: "registration of a well-formed, unambiguous pattern succeeds", Replay: replay})
 				continue
 			}
 			out.Tables++
@@ -362,8 +362,7 @@ func tableJob(raw json.RawMessage) (any, error) {
 					}
 					if class != "" {
 						clause := it.Mode + ".dispatch"
-						out.Viols = append(out.Viols, explore.Violation{Property: it.Mode, Clause: clause, Class: class, Config: it.Router.String(), History: hist, Probe: q.String(), Observed: obs, Expected: exp,
-							Replay: mustJSON(tableReplay{Kind: "dispatch", Router: it.Router, Patterns: pats, Block: block, Req: q})})
+						out.Viols = append(out.Viols, explore.Violation{Property: it.Mode, Clause: clause, Class: class, Config: it.Router.String(), History: hist, Probe: q.String(), Observed: obs, Expected: exp, Replay: replay})
 					}
 				}
 			}
@@ -391,7 +390,11 @@ func tableJob(raw json.RawMessage) (any, error) {
 			}
 		}
 	}
-	rec([]int{it.First})
+	if it.Only != nil {
+		visit(it.Only)
+	} else {
+		rec([]int{it.First})
+	}
 	out.Outcomes = keys(outc)
 	return out, nil
 }
@@ -424,28 +427,6 @@ func vsize(v explore.Violation) int {
 		n += len(h)
 	}
 	return n
-}
-
-func replayTable(raw json.RawMessage) (string, error) {
-	var h tableReplay
-	if err := json.Unmarshal(raw, &h); err != nil {
-		return "", err
-	}
-	if h.Kind == "" {
-		return replayHist(raw)
-	}
-	r, _, perr := buildTable(h.Router, h.Patterns, h.Block)
-	if h.Kind == "build" || perr != "" {
-		return perr, nil
-	}
-	o := hv.Serve(r, h.Req)
-	if o.Paniced {
-		return fmt.Sprintf("panic: %v", o.Panic), nil
-	}
-	if o.Called != 1 {
-		return fmt.Sprintf("CallFunc invoked %d times", o.Called), nil
-	}
-	return o.Summary(), nil
 }
 
 func runTables(rc *explore.RunCtx, mode string) {
@@ -526,7 +507,7 @@ func c01Expand(raw json.RawMessage) (any, error) {
 	}
 	var kids []explore.Child
 	for k, op := range alpha {
-		if !Enabled(pt, op) {
+		if !Enabled(pt, op) || !in.Want(k) {
 			continue
 		}
 		full := append(append([]Op{}, hist...), op)
@@ -535,7 +516,7 @@ func c01Expand(raw json.RawMessage) (any, error) {
 		c := explore.Child{Op: k}
 		if v, bad := ApplyImpl(r, op); bad {
 			c.Viols = append(c.Viols, explore.Violation{Property: "C01", Clause: "C01.no-panic", Class: "op-panic:" + shortPanic(v), Config: cfg.Router.String(), History: hs,
-				Observed: fmt.Sprintf("%s panicked: %v", op, v), Expected: "no panic", Replay: mustJSON(histReplay{Kind: "op", Router: cfg.Router, Ops: full})})
+				Observed: fmt.Sprintf("%s panicked: %v", op, v), Expected: "no panic"})
 			c.Key, c.NoExpand = "panic:"+explore.Key(r), true
 			kids = append(kids, c)
 			continue
@@ -556,8 +537,7 @@ func c01Expand(raw json.RawMessage) (any, error) {
 				c.Probes++
 				outc[fmt.Sprintf("%d/%s/%s/%d", o.Status, o.Kind, o.Pattern, len(o.Params))] = struct{}{}
 				if class, obs, exp := checkSoundness(t, q, o); class != "" {
-					c.Viols = append(c.Viols, explore.Violation{Property: "C01", Clause: "C01.dispatch", Class: class, Config: cfg.Router.String(), History: hs, Probe: q.String(), Observed: obs, Expected: exp,
-						Replay: mustJSON(histReplay{Kind: "dispatch", Router: cfg.Router, Ops: full, Req: q})})
+					c.Viols = append(c.Viols, explore.Violation{Property: "C01", Clause: "C01.dispatch", Class: class, Config: cfg.Router.String(), History: hs, Probe: q.String(), Observed: obs, Expected: exp})
 				}
 			}
 		}
@@ -572,7 +552,7 @@ func c01Expand(raw json.RawMessage) (any, error) {
 func init() {
 	explore.RegisterJob("c01/tables", tableJob)
 	explore.RegisterJob("c01/expand", c01Expand)
-	explore.Register(&explore.Check{ID: "C01", Replay: replayTable, Run: func(rc *explore.RunCtx) {
+	explore.Register(&explore.Check{ID: "C01", Run: func(rc *explore.RunCtx) {
 		rc.Assume = append(rc.Assume,
 			"ordered tables over the dispatch pool D (with and without the 5-literal index block, interceptor sets I0/I1/I2) up to the stated size; histories with Remove/Clean over a reduced pool up to the stated depth",
 			"probe set per table: all strings '/'+Σ^<maxlen over the bytes of the live literal text plus fresh bytes, all instantiations over the value set V, edit-distance-1 neighbours of primary instantiations; all 12 method strings on witness paths",
@@ -585,7 +565,7 @@ func init() {
 		rc.Set("history_depth", depth)
 		explore.BFS(rc, "c01/expand", c03Cfg{Router: RouterCfg{}}, depth, true, "C01 histories")
 	}})
-	explore.Register(&explore.Check{ID: "C02", Replay: replayTable, Run: func(rc *explore.RunCtx) {
+	explore.Register(&explore.Check{ID: "C02", Run: func(rc *explore.RunCtx) {
 		rc.Assume = append(rc.Assume,
 			"add-only ordered tables over the dispatch pool D in every registration order (with and without the index block, I0/I1/I2) up to the stated size",
 			"oracle: ref.Resolve, an executable statement of the documented left-to-right procedure evaluated on the pattern set (never builds a tree); registration order is not an input of the oracle",
